@@ -31,6 +31,7 @@ func init() { vh.Register("C01", Run) }
 // ---------------------------------------------------------------------------------------
 
 type RxPat struct {
+	Class  string `json:"class,omitempty"` // nondigits (^\\D+$) | digits (^\\d+$)
 	Any    bool   `json:"any,omitempty"`
 	AL     bool   `json:"al,omitempty"`
 	AR     bool   `json:"ar,omitempty"`
@@ -179,6 +180,12 @@ func isASCII(s string) bool {
 // ---------------------------------------------------------------------------------------
 
 func (p *RxPat) src() string {
+	switch p.Class {
+	case "nondigits":
+		return `^\D+$`
+	case "digits":
+		return `^\d+$`
+	}
 	if p.Any {
 		return "."
 	}
@@ -192,6 +199,12 @@ func (p *RxPat) src() string {
 	return s
 }
 func (p *RxPat) coq() string {
+	switch p.Class {
+	case "nondigits":
+		return "RxNonDigits"
+	case "digits":
+		return "RxDigits"
+	}
 	if p.Any {
 		return "RxAny"
 	}
@@ -472,9 +485,9 @@ func obsCoq(obs []ObsRule) string {
 // generators
 // ---------------------------------------------------------------------------------------
 
-var keyAlpha = []string{"a", "A", "b", "", "a-b", "a", "A", "b", "B", "ab"}
+var keyAlpha = []string{"a", "A", "b", "", "a-b", "a", "A", "b", "B", "ab", "12", "/^a/"}
 var selKeyAlpha = []string{"a", "A", "b", "a-b", "B", "ab", "A-B", "Ab"}
-var hdrKeyAlpha = []string{"a", "A", "b", "a-b", "X-A", "x-a", "B"}
+var hdrKeyAlpha = []string{"a", "A", "b", "a-b", "X-A", "x-a", "B", "12", "X-Id"}
 var valAlpha = []string{"x", "X", "", "a b", " x ", "%41", "x\x00y", "\xff", "1", "10", "-1", "abc", "ABC", "+5", "  ", "YQ==", "61", "a%20b", "x/*c*/y", "\\x41", "\xc3\xa9"}
 var cookieValAlpha = []string{"x", "X", "", "a b", "%41", "\xff", "1", "10", "abc", "ABC", "YQ=="}
 var argAlpha = []string{"x", "X", "a", "1", "0", "x", "41", "A", "a b", "abc", "10", "-1", "%41", "b", "5", "2", "78"}
@@ -497,51 +510,219 @@ func genPairs(r *rand.Rand, n int, keys, vals []string) [][2]string {
 func genRequest(r *rand.Rand) *Request {
 	q := &Request{Method: pick(r, []string{"GET", "POST", "PUT"}), Path: pick(r, []string{"/", "/p", "/a/b.php", "/A"})}
 	total := r.Intn(7)
+	if total == 0 && r.Intn(3) > 0 {
+		total = 1 + r.Intn(6)
+	}
 	ng := r.Intn(total + 1)
 	q.Get = genPairs(r, ng, keyAlpha, valAlpha)
 	q.Post = genPairs(r, total-ng, keyAlpha, valAlpha)
 	if len(q.Get) > 0 && len(q.Post) > 0 && r.Intn(3) == 0 {
 		q.Post[0][0] = q.Get[0][0] // the same name in both collections
 	}
-	q.Hdr = genPairs(r, r.Intn(4), hdrKeyAlpha, valAlpha)
+	q.Hdr = genPairs(r, []int{0, 1, 2, 2, 3, 3}[r.Intn(6)], hdrKeyAlpha, valAlpha)
 	for i := range q.Hdr { // header values: no leading/trailing blanks are needed, any bytes are kept as is
 		_ = i
 	}
-	ck := genPairs(r, r.Intn(4), []string{"a", "A", "b", "a-b", "B"}, cookieValAlpha)
+	ck := genPairs(r, []int{0, 1, 2, 2, 3, 3}[r.Intn(6)], []string{"a", "A", "b", "a-b", "B", "12"}, cookieValAlpha)
 	q.Cookie = ck
 	return q
 }
 
 func genRx(r *rand.Rand) *RxPat {
-	if r.Intn(8) == 0 {
+	switch r.Intn(12) {
+	case 0:
 		return &RxPat{Any: true}
+	case 1:
+		return &RxPat{Class: "nondigits"}
+	case 2:
+		return &RxPat{Class: "digits"}
 	}
 	return &RxPat{AL: r.Intn(2) == 0, AR: r.Intn(3) == 0, LitHex: hx(pick(r, litAlpha))}
 }
 
-func genSel(r *rand.Rand, v string, forNeg bool) Sel {
+// keys present in the request for the family of variable v (so that selectors often hit)
+func requestKeys(q *Request, v string) []string {
+	var l [][2]string
+	switch {
+	case strings.HasPrefix(v, "ARGS"):
+		l = append(append(l, q.Get...), q.Post...)
+	case strings.HasPrefix(v, "REQUEST_HEADERS"):
+		l = q.Hdr
+	case strings.HasPrefix(v, "REQUEST_COOKIES"):
+		l = q.Cookie
+	}
+	var ks []string
+	for _, p := range l {
+		k := unhx(p[0])
+		ok := k != ""
+		for i := 0; i < len(k); i++ {
+			c := k[i]
+			if !((c >= 'a' && c <= 'z') || (c >= 'A' && c <= 'Z') || (c >= '0' && c <= '9') || c == '-') {
+				ok = false
+			}
+		}
+		if ok {
+			ks = append(ks, k)
+		}
+	}
+	return ks
+}
+
+func flipCase(r *rand.Rand, k string) string {
+	switch r.Intn(4) {
+	case 0:
+		return strings.ToUpper(k)
+	case 1:
+		return strings.ToLower(k)
+	}
+	return k
+}
+
+func genSel(r *rand.Rand, v string, forNeg bool, q *Request) Sel {
 	if !isKeyed(v) {
 		return Sel{Kind: "all"}
 	}
-	n := r.Intn(10)
+	n := r.Intn(20)
 	switch {
-	case n < 3 && !forNeg:
+	case n < 8 && !forNeg:
 		return Sel{Kind: "all"}
 	case n < 1 && forNeg:
 		return Sel{Kind: "all"}
-	case n < 7:
+	case n < 16:
+		if ks := requestKeys(q, v); len(ks) > 0 && r.Intn(10) < 7 {
+			return Sel{Kind: "str", KeyHex: hx(flipCase(r, ks[r.Intn(len(ks))]))}
+		}
 		return Sel{Kind: "str", KeyHex: hx(pick(r, selKeyAlpha))}
 	}
 	return Sel{Kind: "rx", Rx: genRx(r)}
 }
 
-func genLink(r *rand.Rand, prev *Link) Link {
+// an operator argument SecLang can carry verbatim: printable ASCII, no quote / backslash / macro,
+// no leading or trailing blank (the parser trims), not empty
+func argOK(a string) bool {
+	if a == "" || a != strings.TrimSpace(a) || strings.Contains(a, "%{") {
+		return false
+	}
+	for i := 0; i < len(a); i++ {
+		if a[i] < 0x20 || a[i] > 0x7e || a[i] == '"' || a[i] == '\\' || a[i] == '\'' {
+			return false
+		}
+	}
+	return true
+}
+
+// values (before transformations) the variable v can yield for this request (approximation used
+// only to steer the generator towards operators that hold)
+func candidateValues(q *Request, v string) []string {
+	uri, query, hdrs, _ := q.wire()
+	var out []string
+	add := func(l [][2]string, names bool) {
+		for _, p := range l {
+			if names {
+				out = append(out, unhx(p[0]))
+			} else {
+				out = append(out, unhx(p[1]))
+			}
+		}
+	}
+	names := strings.HasSuffix(v, "_NAMES")
+	switch {
+	case v == "ARGS_COMBINED_SIZE":
+		n := 0
+		for _, p := range append(append([][2]string{}, q.Get...), q.Post...) {
+			n += len(unhx(p[0])) + len(unhx(p[1]))
+		}
+		out = append(out, fmt.Sprint(n))
+	case strings.HasPrefix(v, "ARGS_GET"):
+		add(q.Get, names)
+	case strings.HasPrefix(v, "ARGS_POST"):
+		add(q.Post, names)
+	case strings.HasPrefix(v, "ARGS"):
+		add(q.Get, names)
+		add(q.Post, names)
+	case strings.HasPrefix(v, "REQUEST_HEADERS"):
+		for _, h := range hdrs {
+			if names {
+				out = append(out, h[0])
+			} else {
+				out = append(out, h[1])
+			}
+		}
+	case strings.HasPrefix(v, "REQUEST_COOKIES"):
+		add(q.Cookie, names)
+	case v == "REQUEST_URI":
+		out = append(out, uri)
+	case v == "REQUEST_METHOD":
+		out = append(out, q.Method)
+	case v == "QUERY_STRING":
+		out = append(out, query)
+	case v == "TX":
+		out = append(out, "", "x", "X", "1", "abc")
+	}
+	return out
+}
+
+// derive an argument from a value one of the link's targets can select (after the link's
+// transformations) so that the operator has a fair chance to hold
+func argFromRequest(r *rand.Rand, l *Link, q *Request) string {
+	var vals []string
+	for _, it := range l.Items {
+		if it.Neg {
+			continue
+		}
+		if it.Count {
+			vals = append(vals, pick(r, []string{"0", "1", "2", "3"}))
+			continue
+		}
+		vals = append(vals, candidateValues(q, it.Var)...)
+	}
+	if len(vals) == 0 {
+		return ""
+	}
+	v := vals[r.Intn(len(vals))]
+	for _, name := range l.Tfs {
+		if o, _, err := tf(name)(v); err == nil {
+			v = o
+		}
+	}
+	if v == "" {
+		return ""
+	}
+	switch l.Op {
+	case "contains":
+		i := r.Intn(len(v))
+		j := i + 1 + r.Intn(len(v)-i)
+		return strings.TrimSpace(v[i:j])
+	case "beginsWith":
+		return strings.TrimRight(v[:1+r.Intn(len(v))], " ")
+	case "endsWith":
+		return strings.TrimLeft(v[r.Intn(len(v)):], " ")
+	case "eq":
+		return v
+	case "gt":
+		return pick(r, []string{"0", "0", "1", "-1"})
+	}
+	return v
+}
+
+func genLink(r *rand.Rand, prev *Link, q *Request) Link {
 	l := Link{Op: pick(r, opNames), ArgHex: hx(pick(r, argAlpha)), Neg: r.Intn(4) == 0, Multi: r.Intn(4) == 0}
 	if l.Op == "unconditionalMatch" || l.Op == "noMatch" {
 		l.ArgHex = ""
 		if r.Intn(2) == 0 {
 			l.Op = pick(r, opNames[:6])
 			l.ArgHex = hx(pick(r, argAlpha))
+		} else if l.Op == "noMatch" && r.Intn(2) == 0 {
+			l.Neg = true
+		}
+	}
+	if prev != nil && r.Intn(2) == 0 { // later chain links: more often something that holds
+		l.Op, l.ArgHex, l.Neg = pick(r, []string{"unconditionalMatch", "noMatch", "streq"}), "", false
+		switch l.Op {
+		case "noMatch":
+			l.Neg = true
+		case "streq":
+			l.ArgHex, l.Neg = hx("zzz"), true
 		}
 	}
 	// MATCHED_VAR only after a link that matched at most one value (otherwise: hash order, C04's finding)
@@ -562,7 +743,7 @@ func genLink(r *rand.Rand, prev *Link) Link {
 				v = vars[0] // the same variable twice
 			}
 			vars = append(vars, v)
-			l.Items = append(l.Items, Item{Var: v, Count: r.Intn(5) == 0, Sel: genSel(r, v, false)})
+			l.Items = append(l.Items, Item{Var: v, Count: r.Intn(5) == 0, Sel: genSel(r, v, false, q)})
 		}
 		nn := []int{0, 0, 1, 1, 2, 3}[r.Intn(6)]
 		for i := 0; i < nn; i++ {
@@ -570,7 +751,7 @@ func genLink(r *rand.Rand, prev *Link) Link {
 			if r.Intn(8) == 0 {
 				v = pick(r, keyedVars)
 			}
-			it := Item{Neg: true, Var: v, Sel: genSel(r, v, true)}
+			it := Item{Neg: true, Var: v, Sel: genSel(r, v, true, q)}
 			// mostly after the positive items; sometimes in between (applies to earlier targets only)
 			if r.Intn(5) == 0 {
 				pos := r.Intn(len(l.Items) + 1)
@@ -585,10 +766,15 @@ func genLink(r *rand.Rand, prev *Link) Link {
 	for i := 0; i < nt; i++ {
 		l.Tfs = append(l.Tfs, tds[r.Intn(len(tds))].Go)
 	}
+	if l.ArgHex != "" && r.Intn(10) < 7 {
+		if a := argFromRequest(r, &l, q); argOK(a) {
+			l.ArgHex = hx(a)
+		}
+	}
 	return l
 }
 
-func genRules(r *rand.Rand) []Rule {
+func genRules(r *rand.Rand, q *Request) []Rule {
 	n := 1 + r.Intn(4)
 	var rules []Rule
 	id := 0
@@ -602,13 +788,20 @@ func genRules(r *rand.Rand) []Rule {
 			}
 			ru.Links = []Link{a}
 		} else {
-			nl := []int{1, 1, 1, 2, 2, 3}[r.Intn(6)]
+			nl := []int{1, 1, 1, 1, 1, 2, 2, 2, 3, 3}[r.Intn(10)]
 			for k := 0; k < nl; k++ {
 				var prev *Link
 				if k > 0 {
 					prev = &ru.Links[k-1]
 				}
-				ru.Links = append(ru.Links, genLink(r, prev))
+				ru.Links = append(ru.Links, genLink(r, prev, q))
+			}
+		}
+		for _, l := range ru.Links {
+			for _, it := range l.Items {
+				if strings.HasPrefix(it.Var, "ARGS_POST") && !it.Neg && r.Intn(4) > 0 {
+					ru.Phase = 2
+				}
 			}
 		}
 		rules = append(rules, ru)
@@ -916,8 +1109,10 @@ func Run(cfg vh.Config) (*vh.Result, error) {
 				}
 			}
 		}
-		for _, k := range rxKeys {
+		for _, k := range append([]string{"12", "1a", "a1", "x-id", "X-Id", "0", "9", "/", ":"}, rxKeys...) {
 			rn.addRx(&RxPat{Any: true}, k)
+			rn.addRx(&RxPat{Class: "nondigits"}, k)
+			rn.addRx(&RxPat{Class: "digits"}, k)
 		}
 		opVals := append([]string{"+1", "-0", "007", " 1", "1 ", "9223372036854775807", "9223372036854775808", "-9223372036854775808", "-9223372036854775809", "99999999999999999999", "+", "-", "1_0", "0x10", "xa", "ax", "axb"}, valAlpha...)
 		for _, o := range opNames {
@@ -935,7 +1130,8 @@ func Run(cfg vh.Config) (*vh.Result, error) {
 
 		n := cfg.Pick(900, 24000)
 		for i := 0; i < n; i++ {
-			rn.addTx(genRules(rng), genRequest(rng), "")
+			q := genRequest(rng)
+			rn.addTx(genRules(rng, q), q, "")
 		}
 		if cfg.Thorough() {
 			rn.exhaustive()
